@@ -337,6 +337,11 @@ func c11Gen(r *vh.Rand, quick bool) *c11Case {
 			}{C: r.Intn(c.Ctrs), D: r.Range(1, 1000)}
 		}
 		c.Interrupt = it
+		if c.G.Mode == "workflow" {
+			// stream-mode interrupt of a Workflow with field mappings fails in the checkpoint
+			// conversion ("cannot convert sr to streamReader[string]"): C05's subject, avoided here
+			c.Paradigm = "invoke"
+		}
 	}
 	return c
 }
@@ -815,6 +820,13 @@ func c11Compare(ctx *vh.Ctx, c *c11Case, o *c11CaseObs) error {
 				}
 				q["resume"] = map[string]any{"mod": mod, "order": o2}
 			}
+			if dump := os.Getenv("VH_C11_DUMP"); dump != "" { // debugging aid: the oracle queries of this run
+				if f, err := os.OpenFile(dump, os.O_APPEND|os.O_CREATE|os.O_WRONLY, 0o644); err == nil {
+					b, _ := json.Marshal(map[string]any{"p": "C11", "case": q})
+					f.Write(append(b, '\n'))
+					f.Close()
+				}
+			}
 			raw, err := ctx.Oracle.Ask("C11", q)
 			if err != nil {
 				return err
@@ -1021,7 +1033,14 @@ func c11Batch(ctx *vh.Ctx, cases []*c11Case, tag string) error {
 	if len(cases) == 0 {
 		return nil
 	}
+	t0 := time.Now()
 	obs, races, crash := c11RunChild(ctx, cases, tag)
+	c11ChildTime += time.Since(t0)
+	defer func(t1 time.Time) {
+		c11CompareTime += time.Since(t1)
+		ctx.Res.Extra["child_s"] = c11ChildTime.Seconds()
+		ctx.Res.Extra["compare_and_oracle_s"] = c11CompareTime.Seconds()
+	}(time.Now())
 	for i, c := range cases {
 		ctx.Progress.Mark(c)
 		if c.Kind == "misuse" {
@@ -1065,6 +1084,8 @@ func c11Batch(ctx *vh.Ctx, cases []*c11Case, tag string) error {
 	}
 	return nil
 }
+
+var c11ChildTime, c11CompareTime time.Duration
 
 func c11MisuseCases() []*c11Case {
 	var out []*c11Case
